@@ -1,5 +1,140 @@
 import SuppModel.Drv.Util
+import SuppModel.Generated.Fs
+
+/- Driver front-end of the Fs family (C07).  One request carries a whole file-system snapshot and a list
+   of queries; the reply is the list of answers.  Only (de)serialisation + calls of the model/spec
+   definitions the theorems are about. -/
 namespace SuppModel.Drv.Fs
-open Lean SuppModel.Drv
-def handle (_j : Json) : Json := errJson "driver for Fs not built yet"
+open Lean SuppModel.Drv SuppModel.Fs
+
+def strOf (s : String) : Str := s.toList.map Char.toNat
+def strTo (s : Str) : String := String.ofList (s.map Char.ofNat)
+def pathTo (p : Path) : Json := Json.arr (p.map (fun c => Json.str (strTo c))).toArray
+
+def getStrs (j : Json) : Except String (List Str) := do
+  let a ← j.getArr?
+  a.toList.mapM (fun x => do let s ← x.getStr?; pure (strOf s))
+
+def getPaths (j : Json) (k : String) : Except String (List Path) := do
+  let a ← jarr j k
+  a.toList.mapM getStrs
+
+def sortDedup (xs : List String) : List String :=
+  (xs.toArray.qsort (· < ·)).toList.eraseDups
+
+def strsTo (xs : List Str) : Json := Json.arr ((sortDedup (xs.map strTo)).map Json.str).toArray
+
+def sfxOf (j : Json) (k : String) (dflt : List Str) : List Str :=
+  match (j.getObjVal? k).bind getStrs with
+  | .ok l => l
+  | .error _ => dflt
+
+def modResTo : ModRes → Json
+  | .found f b => Json.mkObj [("found", pathTo f), ("src", Json.bool b)]
+  | .loaded => Json.str "loaded"
+  | .importError => Json.str "ImportError"
+
+def locTo : Option Loc → Json
+  | none => Json.null
+  | some (.file f d) => Json.mkObj [("file", pathTo f), ("pkg", Json.bool d.isSome)]
+  | some (.ns ps) => Json.mkObj [("ns", Json.arr (ps.map pathTo).toArray)]
+
+def exceptTo : Except PyErr Str → Json
+  | .ok s => Json.mkObj [("ok", Json.str (strTo s))]
+  | .error .importError => Json.mkObj [("err", Json.str "ImportError")]
+
+/-- candidates for the spec's `enumerable` among the entries of a directory -/
+def specChildren (lsfx : List Str) (fs : Fs) (dir : Path) : List Str :=
+  match fs.listdir dir with
+  | none => []
+  | some names =>
+    let cands := names ++ names.flatMap (fun e =>
+      lsfx.filterMap (fun s => if s.isSuffixOf e then some (e.take (e.length - s.length)) else none))
+    cands.filter (enumerable lsfx fs dir)
+
+def query (roots : List Path) (sfx src lsfx : List Str) (fs : Fs) (sysm : List Str) (q : Json) : Json :=
+  match jstr q "q" with
+  | .ok "get" =>
+    match jstr q "name" with
+    | .error e => errJson e
+    | .ok nm =>
+      let name := strOf nm
+      let comps := splitOn DOT name
+      Json.mkObj [
+        ("model", modResTo (getModule roots sfx src fs sysm name)),
+        ("spec", locTo (importlibFind lsfx fs roots name)),
+        ("valid", Json.bool (validComps comps)),
+        ("nons", Json.bool (NoNamespaceDirs roots fs comps)),
+        ("noclash", Json.bool (NoModulePackageClash roots sfx fs comps)),
+        ("regular", Json.bool (Regular roots sfx fs comps)),
+        ("nosplit", Json.bool (NoSplitPackage roots sfx src lsfx fs comps))]
+  | .ok "norm" =>
+    match jstr q "rel", (q.getObjVal? "file").bind getStrs with
+    | .ok rel, .ok file =>
+      let dir := file.dropLast
+      let pkg := packageOf fs dir
+      let top := dir.take (dir.length - pkg.length)
+      Json.mkObj [
+        ("model", exceptTo (normPackage fs file (strOf rel))),
+        ("spec", exceptTo (resolveName (strOf rel) pkg)),
+        ("pkg", Json.str (strTo (joinOn DOT pkg))),
+        ("chain", Json.bool (pkgChainOK fs top pkg)),
+        ("clean", Json.bool (noInitUpTo fs top))]
+    | _, _ => errJson "bad norm query"
+  | .ok "nget" =>
+    match jstr q "name", (q.getObjVal? "file").bind getStrs with
+    | .ok nm, .ok file =>
+      match getNModule roots sfx src fs sysm (strOf nm) file with
+      | .ok r => Json.mkObj [("model", modResTo r)]
+      | .error _ => Json.mkObj [("model", Json.str "ImportError")]
+    | _, _ => errJson "bad nget query"
+  | .ok "alist" =>
+    -- assistant.list_packages: project.list_packages(project.norm_package(root, filename))
+    match jstr q "root", (q.getObjVal? "file").bind getStrs with
+    | .ok rt, .ok file =>
+      match normPackage fs file (strOf rt) with
+      | .error _ => Json.mkObj [("err", Json.str "ImportError")]
+      | .ok n => Json.mkObj [("ok", Json.str (strTo n)), ("model", strsTo (listPackages roots sfx fs sysm n))]
+    | _, _ => errJson "bad alist query"
+  | .ok "list" =>
+    match jstr q "root" with
+    | .error e => errJson e
+    | .ok rt =>
+      let root := strOf rt
+      Json.mkObj [
+        ("model", strsTo (listPackages roots sfx fs sysm root)),
+        ("fsonly", strsTo (listPackages roots sfx fs [] root)),
+        ("spec", strsTo (roots.flatMap (fun p => specChildren lsfx fs (pkgDirOf p root))))]
+  | _ => errJson "unknown query"
+
+def handle (j : Json) : Json :=
+  match jstr j "op" with
+  | .ok "tree" =>
+    match getPaths j "files", getPaths j "dirs", jarr j "groups" with
+    | .ok files, .ok dirs, .ok groups =>
+      let fs : Fs := { files := files, dirs := dirs }
+      let sfx := sfxOf j "suffixes" Generated.SUFFIXES
+      let src := sfxOf j "source_suffixes" Generated.SOURCE_SUFFIXES
+      let lsfx := sfxOf j "loader_suffixes" Generated.LOADER_SUFFIXES
+      Json.mkObj [("r", Json.arr (groups.map (fun g =>
+        match getPaths g "roots", jarr g "queries" with
+        | .ok roots, .ok qs =>
+          let sysm := sfxOf g "sysmods" []
+          Json.arr (qs.map (query roots sfx src lsfx fs sysm))
+        | _, _ => errJson "bad group")))]
+    | _, _, _ => errJson "bad tree request"
+  | .ok "splitpkg" =>
+    match jstr j "s" with
+    | .ok s => let (h, t) := splitPkg (strOf s); Json.arr #[Json.str (strTo h), Json.str (strTo t)]
+    | .error e => errJson e
+  | .ok "joinpkg" =>
+    match jstr j "a", jstr j "b" with
+    | .ok a, .ok b => Json.str (strTo (joinPkg (strOf a) (strOf b)))
+    | _, _ => errJson "bad joinpkg"
+  | .ok "tables" =>
+    Json.mkObj [("suffixes", Json.arr (Generated.SUFFIXES.map (fun s => Json.str (strTo s))).toArray),
+                ("source_suffixes", Json.arr (Generated.SOURCE_SUFFIXES.map (fun s => Json.str (strTo s))).toArray),
+                ("loader_suffixes", Json.arr (Generated.LOADER_SUFFIXES.map (fun s => Json.str (strTo s))).toArray)]
+  | _ => errJson "unknown fs op"
+
 end SuppModel.Drv.Fs
